@@ -164,9 +164,12 @@ def run(tier, seed):
                     k = int(ch)
                     if k < oc and not first.startswith("WMORE:"):
                         bad = "prefix-" + first.split(":")[0]
+                if syn == "OER":
+                    chk.count("oer_restart_%s:%s" % ("bad" if bad else "ok", "+".join(sorted(x_ for x_ in kinds_in(b, t)))[:200]))
                 if bad:
                     chk.violation({"symptom": bad, "syntax": syn, "family": fam, "schedule": kind,
-                                   "kind": model_kind(b, t), "fids": fids},
+                                   "kind": model_kind(b, t), "fids": fids,
+                                   "has_ext": any(x_.endswith("+ext") for x_ in kinds_in(b, t))},
                                   "%s %s (%s, %d bytes) schedule %s=%s: %s; one-shot OK/%d, chunked %s/%s trace %s" % (
                                       tname, syn, fam, n, kind, ch[:40], bad, oc, d.get("rc"), d.get("consumed"),
                                       (d.get("trace") or "")[:160]),
@@ -184,3 +187,20 @@ def run(tier, seed):
 
 def model_kind(b, t):
     return b.mod.resolve(t).kind
+
+
+def kinds_in(b, t, depth=6, seen=None):
+    """kinds of the type nodes below (and including) t, references resolved, extensibility marked"""
+    seen = seen if seen is not None else set()
+    rt = b.mod.resolve(t)
+    if id(rt) in seen or depth < 0:
+        return set()
+    seen.add(id(rt))
+    k = rt.kind
+    out = {k + ("+ext" if getattr(rt, "ext", None) is not None and k in ("SEQUENCE", "SET", "CHOICE") else "")}
+    if k in ("SEQUENCE", "SET", "CHOICE"):
+        for c in rt.all_comps():
+            out |= kinds_in(b, c.type, depth - 1, seen)
+    elif k in ("SEQUENCE OF", "SET OF"):
+        out |= kinds_in(b, rt.elem, depth - 1, seen)
+    return out
